@@ -306,6 +306,12 @@ def rule_cmp(S):
 
 
 def _body(f, header):
+    # the natural loop of the header (blocks that can reach its back edge); the reachability below is the fall-back for
+    # headers without a back edge
+    from yk.flow import natural_loops
+    nl = natural_loops(f).get(header)
+    if nl:
+        return set(nl) - {header}
     blk = f.blocks[header]
     seen = {blk.succ[0]}
     st = [blk.succ[0]]
